@@ -343,6 +343,16 @@ def c14f(ctx):
         sets = g.find_stmts(lambda s: isinstance(s, ast.Assign) and isinstance(v, ast.Name) and unparse(s.targets[0]) == v.id + '.image_opts' and
                             same(s.value, 'self.tile_manager.image_opts'))
         ok = ok and isinstance(v, ast.Name) and bool(sets) and all(g.dominates(s, r) for s in sets)
+    if not ok and rets:
+        # the other way to the same guarantee: the tile manager hands out no tile without the image options of its cache (loaded tiles
+        # are labelled centrally, C18.i; created tiles by their creator) -- then the explicit assignment here is redundant
+        from ..engine import run_property
+        sub = run_property(ctx.repo, 'C18', ctx.tier, only={'C18.i'})
+        central = not sub.errors and any(o.construct == 'TileManager._load_tile_coords:labels-loaded-tiles' and o.status == 'ok' for o in sub.obs) and \
+            all(o.status == 'ok' for o in sub.obs)
+        cr_ = ctx.fn('mapproxy/cache/tile.py:TileCreator._create_single_tile')
+        created = any(isinstance(s_, ast.Assign) and unparse(s_.targets[0]) == 'source.image_opts' and same(s_.value, 'self.tile_mgr.image_opts') for s_ in cr_.walk())
+        ok = central and created
     ctx.check(ok, 'CacheMapLayer._image:tile-carries-cache-options', 'a cached tile returned unmerged (tiled_only) gets the image options of its cache', im,
               fail='a tile handed on unmerged does not carry the image options of its cache: backends that load tiles without options lose the '
                    'configured opacity/format, and the merger pastes the tile fully opaque')
